@@ -541,26 +541,39 @@ M("c06-wfc-catches-base", "C06", "R6.failure-ends-operation", "operation/wait_fo
   "        except Exception as e:\n            # Mark as failed", "        except BaseException as e:\n            # Mark as failed")
 
 # ----------------------------------------------------------------------------- C10
-M("c10-guard-after-put", "C10", "R1.guard-before-enqueue", "state.py",
-  """                if operation_update.operation_id in self._parent_done:""", """                if False and operation_update.operation_id in self._parent_done:""")
+M("c10-guard-after-put", "C10", "R1.guard", "state.py",
+  """                if (
+                    operation_update.operation_id in self._parent_done
+                    or self._has_completed_ancestor(operation_update.parent_id)
+                ):""", """                if False:""")
+M("c10-guard-ignores-parent-link", "C10", "R3.guard-reads-parent-link", "state.py",
+  """                    operation_update.operation_id in self._parent_done
+                    or self._has_completed_ancestor(operation_update.parent_id)
+                ):""", """                    operation_update.operation_id in self._parent_done
+                ):""", desc="repaired defect re-introduced")
+M("c10-ancestor-walk-ignores-history", "C10", "R4.tree-knows-history", "state.py",
+  """            if parent is None:
+                with self._operations_lock:
+                    recorded = self.operations.get(current)
+                parent = recorded.parent_id if recorded else None
+""", "", desc="half of the repaired defect re-introduced")
 M("c10-mark-only-on-succeed", "C10", "R2.mark-on-succeed-and-fail", "state.py",
   "                    in {OperationAction.SUCCEED, OperationAction.FAIL}", "                    in {OperationAction.SUCCEED}")
 M("c10-mark-outside-lock", "C10", "R1.", "state.py",
-  """                # Handle CONTEXT completion - mark descendants while holding lock
-                if (
-                    operation_update.operation_type == OperationType.CONTEXT
-                    and operation_update.action
-                    in {OperationAction.SUCCEED, OperationAction.FAIL}
-                ):
-                    self._mark_orphans(operation_update.operation_id)
-""", """            # Handle CONTEXT completion
+  """                    self._mark_orphans(operation_update.operation_id)
+                    self._completed_contexts.add(operation_update.operation_id)
+""", """                    pass
             if (
                 operation_update.operation_type == OperationType.CONTEXT
-                and operation_update.action
-                in {OperationAction.SUCCEED, OperationAction.FAIL}
+                and operation_update.action in {OperationAction.SUCCEED, OperationAction.FAIL}
             ):
                 self._mark_orphans(operation_update.operation_id)
             with self._parent_done_lock:
+                if (
+                    operation_update.operation_type == OperationType.CONTEXT
+                    and operation_update.action in {OperationAction.SUCCEED, OperationAction.FAIL}
+                ):
+                    self._completed_contexts.add(operation_update.operation_id)
 """)
 M("c10-marking-not-transitive", "C10", "R2.marking-is-transitive", "state.py",
   "            to_process.update(direct_children)\n", "            all_descendants.update(direct_children)\n")
